@@ -123,3 +123,45 @@ for _directed in (False, True):
                        ("DynDiGraph" if _directed else "DynGraph", L2_SHAPES[_shape]),
                 what="stream_interactions() (and dn.stream_interactions) yields 4-tuples in non-decreasing t, never repeats a (pair, "
                      "op, t), every '-' follows a '+' of its pair, and replaying it reconstructs the presence relation at q")
+
+
+# ---- one call on an EXPLICIT two-pair state (M3): the events of the other pair survive, whatever instants the two share ------
+def T_call(a: int, c: int, t: int, l: int, q: int) -> bool:
+    pass
+
+
+def call_body(cfg, a, c, t, l, q):
+    directed = cfg["directed"]
+    g = build.new_graph(directed)
+    la, lc = cfg["lens"]
+    other = (2, 1) if directed else (2, 3)
+    build.put_pair(g, 1, 2, [[a, a + la]])
+    build.put_pair(g, other[0], other[1], [[c, c + lc]])
+    models.assume((0 <= l) & (l <= cfg["L"]))
+    e = None if l == 0 else t + l
+    try:
+        g.add_interaction(1, 2, t, e)
+    except ValueError:
+        reach("rejected")
+        return sbool(t < a)
+    if sbool(t < a):
+        return False
+    if sbool((t <= c + lc + 1) & (c + lc + 1 <= t + l)):
+        reach("touches_other_pairs_end")
+    # the other pair keeps its timeline; Inv1-Inv3 with weak closure hold at q for both pairs
+    otl = (g._succ if directed else g._adj)[other[0]][other[1]]['t']
+    if not build.tl_equal(otl, [[c, c + lc]]):
+        return False
+    return build.wellformed_at(g, q, minlen=3)
+
+
+for _directed in (False, True):
+    for _lens in ((1, 2), (0, 3), (2, 2)):
+        REG.add("call_%s_%d%d" % ("d_recip" if _directed else "u_share", _lens[0], _lens[1]), T_call, call_body,
+                cfg=dict(directed=_directed, lens=_lens, L=2), tier="quick" if _lens == (1, 2) else "thorough", timeout=900,
+                tags=["rejected", "touches_other_pairs_end"], twins=1,
+                bounds="explicit state: pair (1,2) with one run of %d instants and pair %s with one closed run of %d instants, unbounded "
+                       "symbolic starts; one add_interaction(1,2,t[,e]) with unbounded t and span <= 2; unbounded q" %
+                       (_lens[0] + 1, "(2,1)" if _directed else "(2,3)", _lens[1] + 1),
+                what="after the call both pairs satisfy Inv1-Inv3 at q (in particular the other pair keeps its closing '-' event even "
+                     "when the call touches the instant at which it is stored) and the other pair's timeline is unchanged")
